@@ -93,3 +93,83 @@ def analyse(stmts, left=("name_in_df", "select", "df"), right=("right_name_in_df
         if c[1] == "vis" and not state[c]["right"]:
             problems.append(f"a visible right column whose name is {c[0]} on the left is renamed (P2): the exported frame carries a hash-suffixed name")
     return passes, problems
+
+
+# ---------------------------------------------------------------------------------------------------------
+# SQL subquery: first-come-keeps-the-name de-duplication
+
+
+def _visible_source(e, visible_names) -> bool:
+    """does expression e range over (a filter of) the visible uids?"""
+    if isinstance(e, ast.Starred):
+        e = e.value
+    t = norm(e)
+    if t in visible_names:
+        return True
+    if isinstance(e, (ast.GeneratorExp, ast.ListComp)) and len(e.generators) == 1:
+        return norm(e.generators[0].iter) in visible_names
+    if isinstance(e, ast.Call) and norm(e.func) in ("list", "tuple", "iter") and e.args:
+        return _visible_source(e.args[0], visible_names)
+    return False
+
+
+def marker_dedup_order(stmts, query_select="query.select"):
+    """The SubqueryMarker branch renames columns whose label collides with one already emitted; the first
+    column met keeps the plain name.  Visible columns have pairwise different names, so every visible
+    column keeps its name iff the loop meets all visible columns before any hidden one.
+    returns (loop node, verdict, reason); raises Undecided"""
+    # names bound to the visible uid list (query.select before it is reset) or a set of it
+    visible_names = set()
+    reset = False
+    for st in stmts:
+        if isinstance(st, ast.Assign) and len(st.targets) == 1 and isinstance(st.targets[0], ast.Name):
+            v = norm(st.value)
+            if not reset and (v == query_select or v in (f"set({query_select})", f"list({query_select})", f"frozenset({query_select})")):
+                visible_names.add(st.targets[0].id)
+            elif any(v in (n, f"set({n})", f"list({n})", f"frozenset({n})") for n in visible_names):
+                visible_names.add(st.targets[0].id)
+        if isinstance(st, ast.Assign) and norm(st.targets[0]) == query_select:
+            reset = True  # from here on query.select is no longer the visible list
+    loop = None
+    for st in stmts:
+        if isinstance(st, ast.For) and any(isinstance(n, ast.JoinedStr) for n in ast.walk(st)) and any(
+            isinstance(n, ast.Subscript) and isinstance(n.ctx, ast.Store) for n in ast.walk(st)
+        ):
+            loop = st
+            break
+    if loop is None:
+        raise Undecided("de-duplication loop of the SubqueryMarker branch not found")
+    if not visible_names:
+        return loop, False, "the visible column list (query.select before it is reset) is not kept, so the loop cannot order by it"
+    it = loop.iter
+    # idiom 1: sorted(X, key=lambda u: u not in V)
+    if isinstance(it, ast.Call) and norm(it.func) == "sorted":
+        key = next((k.value for k in it.keywords if k.arg == "key"), None)
+        if isinstance(key, ast.Lambda):
+            b = key.body
+            arg = key.args.args[0].arg if key.args.args else None
+            if isinstance(b, ast.Compare) and len(b.ops) == 1 and isinstance(b.ops[0], ast.NotIn) and norm(b.left) == arg and norm(b.comparators[0]) in visible_names:
+                rev = next((k.value for k in it.keywords if k.arg == "reverse"), None)
+                if rev is None or (isinstance(rev, ast.Constant) and not rev.value):
+                    return loop, True, "stable sort: visible columns first"
+            if isinstance(b, ast.Compare) and len(b.ops) == 1 and isinstance(b.ops[0], ast.In) and norm(b.left) == arg and norm(b.comparators[0]) in visible_names:
+                rev = next((k.value for k in it.keywords if k.arg == "reverse"), None)
+                if isinstance(rev, ast.Constant) and rev.value is True:
+                    return loop, True, "stable sort (reverse): visible columns first"
+        return loop, False, f"sorted by `{norm(key)[:60] if key is not None else 'natural order'}`, which does not put the visible columns first"
+    # idiom 2: concatenation / chain whose first part ranges over the visible list
+    parts = None
+    if isinstance(it, (ast.List, ast.Tuple)):
+        parts = it.elts
+    elif isinstance(it, ast.Call) and (dotted(it.func) or "").endswith("chain"):
+        parts = it.args
+    elif isinstance(it, ast.BinOp) and isinstance(it.op, ast.Add):
+        parts = [it.left, it.right]
+    if parts:
+        if _visible_source(parts[0], visible_names):
+            return loop, True, "visible columns are iterated first"
+        return loop, False, f"the first part `{norm(parts[0])[:50]}` does not range over the visible columns"
+    return loop, False, (
+        f"it iterates `{norm(it)[:50]}` in that container's insertion order (final selection / order of reference / creation), "
+        "which can meet a hidden column before the visible column of the same name"
+    )
